@@ -53,7 +53,7 @@ def natsOf (s : String) : Option (List Nat) := (s.splitOn ":").mapM (·.toNat?)
 
 /-- query prefix, notify flag and body format of the frame writer kind `k` produces on endpoint `ep`
 (clients: c/T call_with_formats, n/t notify_with_formats, m call_message, j/y notify_json, J/Y/b call_json,
-f/F forward_message (async client); servers: r response, p pushed notify) -/
+f/F forward_message (async client); servers: r response, p pushed notify, B notify through `PeerRegistry::broadcast_notify_raw`) -/
 def shape (ep : Nat) (k : Char) : Option (String × Bool × Nat) :=
   if ep ≤ 2 then
     (if k = 'c' ∨ k = 'T' ∨ k = 'm' then some ("/t/", false, 0)
@@ -64,7 +64,7 @@ def shape (ep : Nat) (k : Char) : Option (String × Bool × Nat) :=
      else if k = 'F' ∧ ep = 1 then some ("/t/", false, 0)
      else none)
   else
-    (if k = 'r' then some ("/g/", false, 0) else if k = 'p' ∧ ep = 5 then some ("/p/", true, 0) else none)
+    (if k = 'r' then some ("/g/", false, 0) else if (k = 'p' ∨ k = 'B') ∧ ep = 5 then some ("/p/", true, 0) else none)
 
 def frameOf (ep : Nat) (ws : List (Char × Nat × Nat)) (tag id : Nat) : Option LFrame := do
   let (k, size, qlen) ← ws[tag]?
